@@ -37,7 +37,8 @@ def actEv (act : String) : Option Ev :=
   match act with
   -- attacker statement through a getter alias
   | "s:px" => some (getter (wr ptrInt))
-  | "s:pn" | "s:pa" | "s:pi" | "s:bn" => some (getter (wr ptrStruct))
+  | "s:pn" | "s:pa" | "s:pi" | "s:bn" | "s:ia" => some (getter (wr ptrStruct))
+  | "s:df" => some (.lit 104 (.call pA false (some (.slot 104)) false .undef (getter (wr ptrStruct)) .done))
   | "s:pq" => some (getter (wr (.ptrBase vR)))
   | "s:s0" | "s:si" | "s:ap" | "s:mk" | "s:mn" | "s:md" => some (getter (wr (.obj vR)))
   | "s:cp" => some (getter (.alloc none (wr (.obj vR))))
